@@ -173,6 +173,15 @@ func vfC06Lattice(c int) {
 		vfAssert("contains-corners", vfAnd(a.Contains(a.Min), a.Contains(a.Max)))
 		vfAssert("contains-iff-coords", a.Contains(p) == vfAnd(vfAnd(a.Min[0] <= p[0], p[0] <= a.Max[0]), vfAnd(a.Min[1] <= p[1], p[1] <= a.Max[1])))
 	}
+	if c&1 == 1 {
+		// empty receiver (the Bound() of a vertex-less geometry): Extend still "grows the bound to
+		// include the new point", and nothing else is lost by it
+		e := a.Extend(p)
+		vfAssert("extend-empty-contains-point", e.Contains(p))
+		vfAssert("extend-empty-not-empty", !e.IsEmpty())
+		vfAssert("extend-empty-upper-bound-of-union", vfAnd(e.Contains(a.Union(p.Bound()).Min), e.Contains(a.Union(p.Bound()).Max)))
+		vfAssert("empty-contains-nothing", !a.Contains(p))
+	}
 	if c&3 == 0 {
 		vfAssert("intersects-symmetric", a.Intersects(b) == b.Intersects(a))
 		// intersects <=> the boxes share a point: max of mins <= min of maxs on both axes
